@@ -2,7 +2,7 @@
    "T, L(|p|+|pad|), p ++ pad" into the canonical "T, L(|p|), p", whatever size class the two lengths fall in. *)
 From NDN Require Import Base.Prelude Model.TlvVar Model.Tlv Proofs.BytesLemmas Proofs.TlvVarProofs Proofs.TlvSplit.
 Local Open Scope N_scope.
-Set Default Timeout 60.
+Set Default Timeout 900.
 
 Arguments N.of_nat : simpl never.
 Arguments N.to_nat : simpl never.
